@@ -40,7 +40,7 @@ CBMC_BASE = ["--unwinding-assertions", "--pointer-overflow-check", "--signed-ove
              "--object-bits", "11"]
 
 
-MODEL_UNWIND = ["note_edges.0:17", "note_edges_mode.0:17", "verif_all_free.0:17", "verif_locks_reset.0:17", "g_array_append_vals.0:260", "g_array_append_vals.1:260", "g_array_append_vals.2:260", "g_array_remove_range.0:260",
+MODEL_UNWIND = ["note_edges.0:17", "note_edges_mode.0:17", "verif_max_acq.0:17", "verif_all_free.0:17", "verif_locks_reset.0:17", "g_array_append_vals.0:260", "g_array_append_vals.1:260", "g_array_append_vals.2:260", "g_array_remove_range.0:260",
                 "verif_locks_reset.1:17"]
 
 
@@ -57,7 +57,7 @@ class Q:
                  instr=(), cbmc=(), tier="quick", required=True, timeout=None, entry="harness",
                  scaled=(), expect_fail=None, solver=None, native=False, note="",
                  repo_defs=None, leak=False, nowitness=False, pre=None, checks=True,
-                 lib_unwind_violation=False, unwind_fn=None):
+                 lib_unwind_violation=False, unwind_fn=None, src_flags=None, extra_srcs=None):
         self.name = name
         self.harness = harness
         self.srcs = list(srcs)
@@ -80,6 +80,8 @@ class Q:
         self.leak = leak
         self.nowitness = nowitness
         self.lib_unwind_violation = lib_unwind_violation
+        self.src_flags = dict(src_flags or {})   # {repo-relative source: [extra compiler flags]} (paths may contain @wd)
+        self.extra_srcs = list(extra_srcs or [])  # generated sources (paths may start with @wd/)
         self.unwind_fn = dict(unwind_fn or {})   # {function-name regex: bound} -> expanded to --unwindset per loop
         self.checks = checks            # False: functional query, CBMC's memory-safety/overflow instrumentation off
         self.pre = pre                  # callable(wd, repo): generate headers into wd before compiling
@@ -140,7 +142,10 @@ def build(q, wd, witness):
     for e in q.env:
         jobs.append((os.path.join(VERIF, "env", e), "e", defs))
     for s in q.srcs:
-        jobs.append((os.path.join(repo, s), "r", dflags(q.repo_defs) + defs))
+        extra = [f.replace("@wd", wd) for f in q.src_flags.get(s, [])]
+        jobs.append((os.path.join(repo, s), "r", dflags(q.repo_defs) + defs + extra))
+    for s in q.extra_srcs:
+        jobs.append((s.replace("@wd", wd), "h", defs))
     for src, kind, d in jobs:
         if kind == "h" or q.scaled:
             o = os.path.join(wd, "%s_%s_%s.gb" % (tag, kind, os.path.basename(src)))
